@@ -171,17 +171,21 @@ def run_units(binp, test, tier, deadline_s, scratch):
             todo.insert(0, u)
     out = [reports[u] for u in sorted(reports)]
     if not_started and out:
-        out[0].setdefault("notes", []).append(
+        out[0]["notes"] = (out[0].get("notes") or [])
+        out[0]["notes"].append(
             "deadline: %d of %d work units (the longest sequences) were not started: units %d..%d" % (
                 len(not_started), units, min(not_started), max(not_started)))
         out[0]["exhaustive"] = False
     if gave_up and out:
-        out[0].setdefault("notes", []).append("%d of %d work units did not finish within their time budget twice and are not covered: units %s" % (
+        out[0]["notes"] = (out[0].get("notes") or [])
+        out[0]["notes"].append("%d of %d work units did not finish within their time budget twice and are not covered: units %s" % (
             len(gave_up), units, ",".join(map(str, sorted(gave_up)))))
         out[0]["exhaustive"] = False
-        out[0].setdefault("counters", {})["units_not_covered_after_two_timeouts"] = len(gave_up)
+        out[0]["counters"] = (out[0].get("counters") or {})
+        out[0]["counters"]["units_not_covered_after_two_timeouts"] = len(gave_up)
     if out:
-        out[0].setdefault("counters", {})["units_restarted_after_hang_or_crash"] = len(retried)
+        out[0]["counters"] = (out[0].get("counters") or {})
+        out[0]["counters"]["units_restarted_after_hang_or_crash"] = len(retried)
     return out
 
 
